@@ -26,7 +26,7 @@ claimed["C03"] = dict(
     level="exploration",
     text="Storage-simulation invariant: after every acknowledged write (header.Write of generated table maps; Write / WriteTrueTypePDF / WriteOpenTypeCFFPDF of generated fonts) the simulated disk is checked by an independent container walk (fsck written from the OpenType specification), read back through header.Read/ReadTableBytes, and the write is repeated under several controlled map-iteration orders (the only nondeterminism in the writer). Complete fonts are additionally handed to golang.org/x/image/font/sfnt (incidental oracle). See the scope caveat in DESIGN.md section 3 C03.",
     design="3 C03",
-    note="Trusted: harness/simgen/fsck.go (container walk), x/image/font/sfnt as independent parser for glyph count, unitsPerEm, cmap, advances and glyph names (files it declines are counted, not judged). Outline agreement with the independent parser is not checked.",
+    note="Trusted: harness/simgen/fsck.go (container walk), x/image/font/sfnt as independent parser for glyph count, unitsPerEm, cmap, advances and glyph names (files it declines are counted, not judged). Outlines: the independent parser must load every sampled glyph, find one sub-path per contour and return every on-/off-curve point of simple TrueType glyphs; curves of CFF glyphs are not compared. The loca table is walked from the specification (harness/simgen/fsck.go FsckLoca).",
     technique="deterministic simulation: generated writes onto a simulated disk under controlled map-iteration order, fsck invariant after every acknowledged write",
 )
 
@@ -66,7 +66,7 @@ claimed["C02"] = dict(
     level="exploration",
     text="Storage-fault injection under the decoders: each of 19 decoders is fed artefacts the library itself wrote after 1..3 faults of the stored-data catalogue (plus undamaged and all-random controls), through simulated readers with short reads; oracles are no panic, a deterministic step budget, an allocation bound linear in the input, and a panic-free accessor battery (the accessors the statement lists, incl. re-encoding) on whatever is accepted. This reaches 'all byte strings' through the fault neighbourhood of valid files - the part of the space a deployment meets - and is a sample, not the space.",
     design="3 C02",
-    note="Trusted: fault catalogue, step counter inserted by the rewriter, runtime.MemStats.TotalAlloc as allocation meter. Not covered: adversarial inputs far from any valid artefact other than short random strings; inputs of several MB (largest artefact ~150 KiB).",
+    note="Trusted: fault catalogue, step counter inserted by the rewriter, runtime.MemStats.TotalAlloc as allocation meter. Hand-made artefacts cover shapes the library's writers never emit (CFF subroutines, CID-keyed dictionaries with real operands, charstrings computing 2^63-sized operands for roll/index, GSUB and cmap tables with thousands of records sharing or overlapping one subtable); re-encoding an accepted cmap is metered like the decoding. Not covered: adversarial inputs far from any valid or hand-made artefact other than short random strings; inputs of several MB (largest artefact ~150 KiB).",
     technique="deterministic simulation: stored-data fault injection (crash images, bit rot, torn and misdirected writes) under simulated short-reading readers, with deterministic step and allocation budgets",
 )
 
@@ -82,7 +82,7 @@ claimed["C19"] = dict(
     level="exploration",
     text="Seeded search over (text, schedule): builder.Parse runs inside a testing/synctest bubble (go1.26.8); a yield is inserted before every channel operation of the builder package and at every quiescence the tape decides which parked goroutine proceeds. Texts are selections from sample descriptions of GSUB1-6/GPOS1-4, Explain output of generated lookups and random bytes, with 0..3 token-level faults (the parse error is the fault point: it decides where the consumer abandons the producers). Decided: returns lookups or an error with a line number; no panic; no deadlock (quiescence with Parse unreturned); no goroutine left behind (goroutines of the builder package alive after everything was released); termination within a step budget. The notation round trip Parse(Explain(L)) == L is evaluated for every accepted text as an incidental oracle.",
     design="3 C19",
-    note="Trusted: testing/synctest's quiescence detection, goroutine dumps for leak attribution, the rewriter's coverage of channel operations. Not decided: that parsing 'means what the documented syntax says' beyond the round trip; lookup lists are generated from the language's own samples and Explain output, not from an independent grammar.",
+    note="Trusted: testing/synctest's quiescence detection, goroutine dumps for leak attribution, the rewriter's coverage of channel operations. The clause 'parsing means what the documented syntax says' is decided for ranges only (a description with hyphenated ranges must parse like the same description written out) and otherwise through the round trip; lookup lists are generated from the language's own samples and Explain output, not from an independent grammar.",
     technique="deterministic simulation: tape-driven goroutine scheduler inside a synctest bubble (quiescence = deadlock/leak oracle), parse errors as fault points",
 )
 
